@@ -21,7 +21,7 @@ From AV Require Gen.Consts Panic.ClientNoPanic.
 From AV Require Import Panic.Str Panic.StrProofs.
 From AV Require Import Panic.CDisp Panic.CDispProofs Panic.RangeHdr Panic.RangeHdrProofs.
 From AV Require Import Panic.ConnInfo Panic.ConnInfoProofs Panic.HdrWriter Panic.HdrWriterProofs.
-From AV Require Import Panic.MpScan Panic.MpScanProofs.
+From AV Require Import Panic.MpScan Panic.MpScanProofs Panic.HeadPhase Panic.HeadPhaseProofs.
 
 (* ============================== (a) cores modelled for other properties ====================== *)
 
@@ -157,6 +157,13 @@ Theorem C19_client_body_never_panics :
   fst (ClientProofs.body_result v c buf segs closed) <> PlStream.BPanic.
 Proof. exact ClientNoPanic.client_body_never_panics. Qed.
 
+(* h1 server: the drain loop of poll_request (decode until the codec asks for more) never runs
+   out of the fuel the model gives it, for every tokenizer obeying the head laws: no unbounded
+   decode loop. [C01] *)
+Theorem C19_h1_drain_loop_terminates : forall head, CodecProofs.HeadLaws head -> forall buf acc,
+  Codec.run head Consts.H1_MAX_BUFFER_SIZE (Codec.run_fuel buf) Codec.codec0 buf acc <> Codec.OFuel.
+Proof. exact C01.C01_run_fuel_suffices. Qed.
+
 (* ============================== (b) typed parsers modelled here ============================== *)
 
 (* ContentDisposition::from_raw: for every header value (any bytes) and every behaviour of the
@@ -207,6 +214,58 @@ Theorem C19_h1_header_writer_never_panics :
   exists cap', write_headers grow len cap hs = Val (len + sumN (map line_len hs), cap') /\
                len + sumN (map line_len hs) <= cap'.
 Proof. exact write_headers_ok. Qed.
+
+(* h1 HEAD phase (decoder.rs: request and response): httparse's answer is an input constrained by
+   the decidable contract [hp_okb] (consumed length inside the buffer; every name / value a
+   sub-slice of the consumed prefix, given as address + length; at most MAX_HEADERS; method, path,
+   version, code present; values free of control bytes). HeaderIndex::record, computed on
+   addresses (`ptr as usize - bytes_ptr`, `start + len`), turns it into index pairs that are
+   sub-slices of the head slice ... *)
+Theorem C19_h1_head_record_establishes_invariant :
+  forall (base : N) (buf : bytes) (p : parsed),
+  hp_okb Consts.H1_MAX_HEADERS base buf (HComplete p) = true ->
+  exists ixs, record Consts.H1_MAX_HEADERS base (p_headers p) = Val ixs /\
+              Forall (idx_ok (takeN (p_len p) buf)) ixs.
+Proof. exact (record_establishes Consts.H1_MAX_HEADERS). Qed.
+
+(* ... so that, in the code after F27, the whole request-head phase (unwraps, record,
+   split_to(len), &headers[..h_len], every slice[idx.name.0..idx.name.1] / value slice of
+   set_headers, the debug assertion of from_maybe_shared_unchecked, &bytes[0..4], post-checks)
+   returns a value for every buffer and every httparse answer within the contract ... *)
+Theorem C19_h1_request_head_never_panics :
+  forall (buf : bytes) (base : N) (hp : hp_res) (method_ok uri_ok is_post is_connect : bool),
+  hp_okb Consts.H1_MAX_HEADERS base buf hp = true ->
+  request_decode Consts.H1_MAX_HEADERS Consts.H1_MAX_BUFFER_SIZE true buf base hp method_ok uri_ok is_post is_connect <> Panic.
+Proof.
+  intros. destruct (request_decode_total Consts.H1_MAX_HEADERS Consts.H1_MAX_BUFFER_SIZE buf base hp
+                      method_ok uri_ok is_post is_connect H) as [r E]. rewrite E. discriminate.
+Qed.
+
+(* ... and so does the response-head phase of the client *)
+Theorem C19_h1_response_head_never_panics :
+  forall (buf : bytes) (base : N) (hp : hp_res) (code : N),
+  hp_okb Consts.H1_MAX_HEADERS base buf hp = true ->
+  response_decode Consts.H1_MAX_HEADERS Consts.H1_MAX_BUFFER_SIZE true buf base hp code <> Panic.
+Proof.
+  intros. destruct (response_decode_total Consts.H1_MAX_HEADERS Consts.H1_MAX_BUFFER_SIZE buf base hp code H)
+    as [r E]. rewrite E. discriminate.
+Qed.
+
+(* F27 exactly: a field name longer than 65535 bytes is answered with Err(ParseError::Header) *)
+Theorem C19_h1_long_header_name_is_error :
+  forall (http11 : bool) (sl : bytes) (st : sh) (ns ne vs ve : N),
+  ns <= ne -> ne <= lenN sl -> 65535 < ne - ns ->
+  header_step true http11 sl st (ns, ne, vs, ve) = Val None.
+Proof. exact long_name_is_err. Qed.
+
+(* ... whereas the code before the repair (`.unwrap()`) panicked on the minimal input
+   "GET / HTTP/1.1\r\n" ++ "a" * 65536 ++ ": x\r\n\r\n", which is inside httparse's contract *)
+Theorem C19_h1_head_refuted_before_F27 :
+  exists (buf : bytes) (base : N) (hp : hp_res),
+    hp_okb Consts.H1_MAX_HEADERS base buf hp = true /\
+    request_decode Consts.H1_MAX_HEADERS Consts.H1_MAX_BUFFER_SIZE false buf base hp true true false false = Panic /\
+    request_decode Consts.H1_MAX_HEADERS Consts.H1_MAX_BUFFER_SIZE true buf base hp true true false false = Val DHeader.
+Proof. exists f27_buf, 4096, (f27_hp 4096). exact f27_witness. Qed.
 
 (* multipart field scanner InnerField::read_stream with the look-ahead constant READ FROM THE
    SOURCES (`cur + 4 > len`): payload.buf[0], [2..4], [1..3], [b_len..b_size], &buf[pos..],
